@@ -12,6 +12,23 @@ PROPS = {
         "runs": [{"bin": "mon_ff"}],
         "assumptions": BASE_ASSUME + ["field configurations use the minimal limb count for their modulus (DESIGN §7)"],
     },
+    "C02": {
+        "runs": [{"bin": "mon_ff"}],
+        "assumptions": BASE_ASSUME + ["prime-field operations and conversions used to build/decode tower elements are checked by C01",
+                                      "that each NONRESIDUE really is a non-residue is C16's obligation; the model reduces by X^k = NONRESIDUE as configured"],
+    },
+    "C06": {
+        "runs": [{"bin": "mon_pair"}],
+        "assumptions": BASE_ASSUME + [
+            "points are elements of the prime-order groups G1/G2 (generator multiples, identity); multi-pairing lists have equal lengths (unequal lengths are a documented panic)",
+            "group scalar multiplication (C04), group law (C03) and target-field mul/square/inverse/pow (C02) are checked by their own properties and are used to form operands and right-hand sides",
+        ],
+    },
+    "C11": {
+        "runs": [{"bin": "mon_ff"}],
+        "assumptions": BASE_ASSUME + ["fields without a square-root algorithm (Fp6 3-over-2 without SQRT_PRECOMP, Fp12 above it) are excluded, as the property states",
+                                      "curve-coordinate recovery helpers are monitored by mon_ec (toy curves exhaustively)"],
+    },
     "C15": {
         "runs": [{"bin": "mon_ff"}],
         "assumptions": BASE_ASSUME,
